@@ -18,6 +18,16 @@ add("C06", "hypothesis-generated ODE problems vs closed-form solutions (observed
     "Generated search over nine closed-form ODE families (autonomous and explicitly time dependent), random parameters, start times and step sizes: the observed order of both built-in iterators is estimated from sup-norm errors at h, h/2, h/4 and compared with the nominal order; the times at which the derivative callback is invoked are compared with the documented stage times, both by calling the iterator function directly and through GenericModel.solve; the state vector is compared bit for bit. A limit statement decided on a finite window of step sizes.",
     "numpy closed forms; asymptotic window [1e-11,5e-2]*scale; slack 0.35 on the order, both successive estimates must fall short")
 
+add("C05", "hypothesis-generated model programs (data-described GenericModel subclasses, Coupler couplings, degenerate step proposals) with history invariants recorded inside the model callbacks",
+    "Generated search over user-model programs: state layouts, derivative rules, cycled step proposals (0, negative, +-inf, NaN, tiny, huge), stop steps, shape-changing postProcess, 1-3 coupled models, 1-3 consecutive solve calls, both iterators. The oracle is a set of invariants over the accepted-time history and over the structure of every state handed to a callback (strictly increasing times, end time within 2 ulp, step bounds, step-count bound with non-termination detection, stop honoured, clocks of coupled models equal).",
+    "2-ulp reading of 'exactly'; minimum step kept resolvable on the clock; N-D entries only with a model-supplied flattenX")
+add("C07", "hypothesis-generated grids/distributions/growth fields vs an independent scalar-loop upwind reference (differential) plus conservation/sign/bound invariants",
+    "Generated search over grids, distributions (empty, single-class, sparse, dense, 35 decades), growth fields (1/R laws, sign changes, zeros, random) and nucleation terms (inside, on a boundary, below, above the grid): the returned rate is compared class by class with a scalar reference written from the statement, the sum rule is checked against boundary outflow, the per-face limited fluxes against class contents, non-negativity for classes obeying the step limit, the step-limit value and the dissolution index; the same identities through GrainGrowthModel.",
+    "scalar reference in vk/refs/pbm.py; rtol 1e-12 on term magnitudes; reading of out-of-grid radii stated in DESIGN.md section 3")
+add("C08", "model-based operation sequences (generated histories of PBM operations interpreted against a reference model, invariants after every step) and differential moment checks",
+    "Generated histories of up to 30 grid operations (update, load, extend, re-mesh, automatic adjustment, backup/revert, reset, adaptive toggle) on one PopulationBalanceModel with invariants after every step (bounds strictly increasing from min to max, midpoints, lengths, non-negative finite populations) and per-operation post-conditions (extension leaves old classes untouched, re-mesh onto a covering grid preserves the third moment to 1e-9, adaptive adjustment never exceeds maxBins and reports change/newIndices truthfully, reset/revert restore); every ...FromN moment function vs a scalar reference with a different stored distribution.",
+    "class counts kept above minBins/2 (IndexError domain, see DESIGN.md); revert only with a valid backup; recording not part of this machine")
+
 NOT_YET = {}
 
 ALL = ["C%02d" % i for i in range(1, 21)]
